@@ -39,7 +39,8 @@ NONTRIVIAL_RULE = ('distinct (kind, pairs, encoder) or (totality prefix); non-tr
 
 ALPHABET = 'a=&%+2'
 POOL = ['a', 'b', 'k', '', ' ', 'x y', 'a=b', 'a&b', '&', '=', '+', 'a+b', '%', '%41', '%zz', '100%', 'é', '€', '\U0001F600z',
-        'a;b', '#?/', 'ключ', ' lead', 'trail ', '==', '&&', '%2', 'a%26b=c', '\t\n', '\x00', '\x7f\x80ÿ']
+        'a;b', '#?/', 'ключ', ' lead', 'trail ', '==', '&&', '%2', 'a%26b=c', '\t\n', '\x00', '\x7f\x80ÿ',
+        'Zoe\u0308', '\u212b\u2126']        # the last two: text that is not in Unicode NFC (decomposed accent, ANGSTROM / OHM SIGN)
 ENCODERS = ['plus', 'pct20', 'lowerhex', 'all']
 
 
